@@ -321,6 +321,10 @@ def main(argv):
                                        v["msg"].split("\n")[0][:160]))
 
     wall = time.time() - t0
+    if os.environ.get("VERIF_DEBUG"):
+        slow = sorted(results, key=lambda r: -r["wall"])[:6]
+        for r in slow:
+            print("  slow shard %.1fs %s" % (r["wall"], jdump(shards[r["idx"]])))
     level = getattr(mod, "LEVEL", "exploration")
     cov = dict(
         evaluations=tot.evaluations,
